@@ -164,26 +164,43 @@ def run(run):
             ref = nets.refeval(net, I)
             if not np.all(ref != 0):
                 continue
-            d = {"net": net.to_json(), "ssa": [list(p) for p in ssa], "sliced": [ix], "zero_slab": [t, ix, zero_vals]}
+            # ordinary magnitudes, or every tensor scaled so that the total leaves the double range (the exponent of a
+            # vanishing slice must not take part in the common exponent of the live ones)
+            scales = rng.choice([[0] * net.N, [0] * net.N, [-100] * net.N, [100] * net.N,
+                                 [rng.choice([-100, -60, 0, 60, 100]) for _ in range(net.N)]])
+            if net.N >= 4 and rng.random() < 0.4:
+                scales = [-100] * net.N         # total below the smallest double (per-tensor scales stay within the statement's range)
+            S = sum(scales)
+            with np.errstate(all="ignore"):
+                arrays = [a * 10.0 ** sc for a, sc in zip(I, scales)]
+            d = {"net": net.to_json(), "ssa": [list(p) for p in ssa], "sliced": [ix], "zero_slab": [t, ix, zero_vals], "scales": scales}
             run.count()
-            run.nontrivial(("zero-slices", net.eq(), str(ssa), ix, str(zero_vals)))
+            run.nontrivial(("zero-slices", net.eq(), str(ssa), ix, str(zero_vals), str(scales)))
+            stags = {"exact-zero-slices", "output-sliced" if ix in net.output else "inner-sliced",
+                     "scaled" if any(scales) else "unscaled"}
             try:
                 with core.watchdog(60), np.errstate(all="ignore"):
                     tree = observe.build_tree(ct, net, ssa)
                     tree.remove_ind_(net.lab[ix])
-                    m, e = tree.contract(I, strip_exponent=True, check_zero=True)
-                    val = np.asarray(m, dtype=np.float64) * 10.0 ** float(e)
-                ok = val.shape == ref.shape and np.all(np.isfinite(val)) and np.allclose(val, ref, rtol=1e-9)
+                    m, e = tree.contract(arrays, strip_exponent=True, check_zero=True)
+                    mm = np.asarray(m, dtype=np.float64)
+                    ok = np.all(np.isfinite(mm)) and math.isfinite(float(e))
+                    if ok:
+                        try:
+                            val = mm * 10.0 ** (float(e) - S)
+                            ok = val.shape == ref.shape and np.allclose(val, ref, rtol=1e-9, atol=0)
+                        except OverflowError:
+                            ok = False
             except Exception as ex:
                 run.violation(f"strip_exponent + check_zero with exactly vanishing slices raised {core.exc_text(ex)} eq={net.eq()} "
-                              f"sliced={net.lab[ix]} zero slab of tensor {t} at values {zero_vals}", d,
-                              tags={"exact-zero-slices", "raised", "output-sliced" if ix in net.output else "inner-sliced"})
+                              f"sliced={net.lab[ix]} zero slab of tensor {t} at values {zero_vals} scales={scales}", d,
+                              tags=stags | {"raised"})
                 continue
             if not ok:
-                run.violation(f"strip_exponent + check_zero: result {val.tolist()} differs from the plain non-zero result {ref.tolist()} "
-                              f"when >= 2 slices vanish exactly: eq={net.eq()} dims={net.dims} ssa={ssa} sliced={net.lab[ix]} "
-                              f"zero slab of tensor {t} at values {zero_vals}"[:600], d,
-                              tags={"exact-zero-slices", "value", "output-sliced" if ix in net.output else "inner-sliced"})
+                run.violation(f"strip_exponent + check_zero: mantissa {mm.tolist()} x 10^{e} differs from the exact non-zero result "
+                              f"{ref.tolist()} x 10^{S} when >= 2 slices vanish exactly: eq={net.eq()} dims={net.dims} ssa={ssa} "
+                              f"sliced={net.lab[ix]} zero slab of tensor {t} at values {zero_vals} scales={scales}"[:700], d,
+                              tags=stags | {"value"})
     # the evaluator itself, tied to the spec on canonical arrays for a sample of the networks
     for net in pool[: (12 if quick else 40)]:
         ref = nets.refeval(net, nets.canon_arrays(net))
